@@ -392,7 +392,6 @@ PROPS["C01"] = {
             "0-9 records per file with nulls following non-nulls, boundary values, NaN/Inf/-0, nil/empty collections, nil pointers at every level.",
     "trusted": CODEC_TRUST,
 }
-PROPS["C02"]["harness"] = [("WR2", "C02"), ("E2E", "C02")]
 
 NOT_APPLICABLE = {}
 
@@ -482,3 +481,8 @@ PROPS["C20"] = {
     "assumptions": ["Register / RegisterSchema are global and permanent: every case re-applies its own registration history, so the final state "
                     "of each type depends only on the case; types SG*U are never registered by any case"],
 }
+
+PROPS["C02"]["harness"] = [("WR2", "C02"), ("E2E", "C02")]
+PROPS["C01"]["harness"] = [("E2E", "C01"), ("BIG", "C01")]
+PROPS["C03"]["harness"] = [("RD", "C03"), ("BIG", "C03")]
+PROPS["C07"]["harness"] = list(PROPS["C07"]["harness"]) + [("BIG", "C07")]
